@@ -140,9 +140,21 @@ func tokOf(words []aWord) (tok token.Token, at int) {
 func isFuncDecl(words []aWord) bool {
 	if startWith(words, token.LPAREN) { // func (
 		words = seekAfter(words[1:], token.RPAREN, token.LPAREN) // func (...)
-		if startWith(words, token.LBRACE) {                      // func (...) {
-			return false
+		for len(words) > 0 && words[0].tok == token.COMMENT {
+			words = words[1:]
 		}
+		if len(words) == 0 {
+			return true
+		}
+		switch words[0].tok {
+		case token.LBRACE, token.LPAREN: // func (...) {  or  func (...) (results)
+			return false
+		case token.PERIOD: // func (T).name = (...)
+			return true
+		}
+		// func (recv) nameOrOp(params) is a method; anything else is
+		// func (params) resultType {, a function literal (or a function type)
+		return words[0].tok != token.FUNC && startWith(words[1:], token.LPAREN)
 	}
 	return true
 }
